@@ -16,7 +16,7 @@ echo "DEMO $ID clean_rc=$rc_clean broken_rc=$rc_broken"
 if [ $rc_clean -ne 0 ] || [ $rc_broken -eq 0 ]; then echo "DEMO-NOT-CONFIRMED $ID"; tail -5 /tmp/sc-$ID-clean.txt /tmp/sc-$ID-broken.txt; rm -f /tmp/sc-$ID-*.txt; exit 4; fi
 D=/verif/seeded/$ID; mkdir -p "$D"; cp "$OUT/patch.diff" "$D/"; rm -rf "$D/demo"; cp -r "$OUT/demo" "$D/demo"; cp "$OUT/meta.json" "$D/meta.json"
 tail -c 3000 /tmp/sc-$ID-broken.txt > "$D/demo/confirmed_broken_tail.txt"; rm -f /tmp/sc-$ID-*.txt
-/verif/scripts/seeded_eval.sh "$D/patch.diff" "$ID" "$PROPS" "$TIER" tests > "$D/eval.log" 2>&1
+/verif/scripts/seeded_eval.sh "$D/patch.diff" "$ID" "$PROPS" "$TIER" ${TESTS:-} > "$D/eval.log" 2>&1
 cat "$D/eval.log" | cut -c1-400
 python3 - "$D" "$TIER" <<'PY'
 import json,sys,re
